@@ -163,6 +163,12 @@ func init() {
 			u.heapStoreAt(st, val, d, nv)
 			return unitV()
 		},
+		// decoders write through their target argument: everything reachable is havoced (sound, coarse)
+		"google.golang.org/protobuf/proto.Unmarshal":                       havocAllCall,
+		"google.golang.org/protobuf/encoding/protodelim.UnmarshalFrom":     havocAllCall,
+		"encoding/json.Unmarshal":                                          havocAllCall,
+		"gopkg.in/yaml.v2.Unmarshal":                                       havocAllCall,
+		"gopkg.in/yaml.v2.UnmarshalStrict":                                 havocAllCall,
 		"errors.New":  freshErr,
 		"fmt.Errorf":  freshErr,
 		"errors.Is": func(fr *Frame, st *State, a []Val, _ ssa.Instruction) Val {
@@ -408,4 +414,13 @@ func sortPerm(fr *Frame, st *State, a []Val, in ssa.Instruction) Val {
 	u.heapStoreAt(st, h, app("sl_base", x.T), newRow)
 	u.note("sort.Sort/Stable: modelled as an in-place permutation of the slice (order not modelled)")
 	return unitV()
+}
+
+func havocAllCall(fr *Frame, st *State, a []Val, in ssa.Instruction) Val {
+	u := fr.u
+	u.havocAll(st)
+	sig := in.(ssa.CallInstruction).Common().Signature()
+	rs := fr.freshResults(sig, "decode")
+	u.note("decoder call writes through its target: whole modelled heap havoced")
+	return resultVal(u, sig, rs)
 }
